@@ -6,7 +6,7 @@ function).  Helper lemmas live in `Proof/Lzma*.lean`.
 Conformance of the encodings to FULL LZMA/XZ decoders (`xz_conformance`) is not a theorem here: it is
 covered by the tie only (xz tool, Wuffs std/lzma + std/xz on every generated payload).
 -/
-import WuffsVerif.Proof.LzmaContainer
+import WuffsVerif.Proof.LzmaXz
 
 namespace WuffsVerif.Props.C17
 open WuffsVerif.Lzma
@@ -152,5 +152,57 @@ theorem lzma_roundtrip_tail' (dst : Array UInt8) (src tail : List UInt8) (hlen :
 /-- non-vacuity / sanity: the empty input and a short one, by evaluation -/
 example : decodeLZMA #[] (encodeLZMA #[] []).toList = (#[], [], Err.ok) := by decide
 example : (encodeLZMA #[] []).toList = [0x5D, 0, 0x10, 0, 0, 0, 0, 0, 0, 0, 0, 0, 0, 0, 0, 0, 0, 0] := by decide
+
+/-! ## uvarint -/
+
+/-- `uvarint_roundtrip`: `decodeUvarint (encodeUvarint x ++ rest) = (rest, x, ok)` for every `x < 2^63`
+    (the decoder reads at most 9 bytes: `i < 63`), whatever follows. -/
+theorem uvarint_roundtrip (x : Nat) (hx : x < 2 ^ 63) (rest : List UInt8) :
+    decodeUvarint ((encodeUvarint #[] x).toList ++ rest) = (rest, x, true) := by
+  rw [encodeUvarint_toList]
+  exact uvarint_roundtrip_list x hx rest
+
+/-- instance: the largest value the index of a 2^63-byte file could need -/
+example : decodeUvarint (encodeUvarint #[] (2 ^ 63 - 1)).toList = ([], 2 ^ 63 - 1, true) := by
+  have := uvarint_roundtrip (2 ^ 63 - 1) (by omega) []
+  rwa [List.append_nil] at this
+
+/-! ## XZ -/
+
+/-- whenever `encodeXz` chooses the LZMA form for a chunk, `len(rawLZMA) - 1` fits the 16-bit field
+    (and so does `len(srcChunk) - 1` for every chunk the loop cuts) -/
+theorem xz_packed_size_bound (srcChunk : List UInt8) (h : srcChunk.length ≤ 0x10000)
+    (hch : ¬ (srcChunk.length + 3 ≤ (encodeRaw #[] srcChunk).size + 6)) :
+    (encodeRaw #[] srcChunk).size - 1 < 2 ^ 16 := by
+  omega
+
+/-- one round of the chunk loop, either form (uncompressed fallback or LZMA), is undone by one round of
+    the decoder's loop -/
+theorem xz_chunk_roundtrip (c : List UInt8) (hc1 : 0 < c.length) (hc2 : c.length ≤ 65536) (fuel : Nat)
+    (dst : Array UInt8) (rest : List UInt8) :
+    decodeXzChunks (fuel + 1) dst ((encodeXzChunk #[] c).toList ++ rest)
+      = decodeXzChunks fuel (pushList dst c) rest :=
+  decode_chunk c hc1 hc2 fuel dst rest
+
+/-- `xz_roundtrip`: `FileFormatXz.Decode(Encode(src)) = (src, nothing left over, nil)` for every byte string
+    (empty, single chunk in either form, any number of 64 KiB chunks); trailing bytes are returned
+    untouched.  `src.length < 2^60` only guarantees that the index's uvarints stay below 2^63. -/
+theorem xz_roundtrip_tail' (src tail : List UInt8) (h : src.length < 2 ^ 60) :
+    decodeXz #[] ((encodeXz #[] src).toList ++ tail) = (pushList #[] src, tail, Err.ok) :=
+  xz_roundtrip_tail src tail (by omega) (xzUnpadded_lt src h)
+
+theorem xz_roundtrip (src : List UInt8) (h : src.length < 2 ^ 60) :
+    decodeXz #[] (encodeXz #[] src).toList = (src.toArray, [], Err.ok) := by
+  have := xz_roundtrip_tail' src [] h
+  rw [List.append_nil] at this
+  have hp : pushList #[] src = src.toArray := by
+    apply Array.ext'
+    rw [pushList_toList]; simp
+  rw [this, hp]
+
+/-- instances: the empty input (no chunk at all), and any single byte -/
+example : decodeXz #[] (encodeXz #[] []).toList = (#[], [], Err.ok) := xz_roundtrip [] (by decide)
+example (b : UInt8) : decodeXz #[] (encodeXz #[] [b]).toList = (#[b], [], Err.ok) :=
+  xz_roundtrip [b] (by simp)
 
 end WuffsVerif.Props.C17
